@@ -9,7 +9,11 @@ Tie (correspondence, same inputs through the real code and the Lean model):
     setNumberDensitiesFromOverlaps, setAssemblyStateFromOverlaps (integrated, averaged, peak kinds,
     scalar / array / None values);
   * UniformMeshGenerator._filterMesh, mathematics.resampleStepwise, mathematics.average1DWithinTolerance
-    called directly on generated inputs.
+    called directly on generated inputs;
+  * the public path end to end (run_converter): UniformMeshGeometryConverter.convert / applyStateToOriginal of the
+    neutronics and gamma converters on whole cores (build-a-new-core path and non-uniform-assemblies path):
+    _setParamsToUpdate both directions, generateCommonMesh, _buildAllUniformAssemblies, _mapStateFromReactorToOther
+    both directions; the model is asked for sampled (assembly, parameter / nuclide) pairs of both directions.
 Implementation-side oracle: the clauses of the property evaluated with independent interval arithmetic on
 the real objects (atoms per nuclide, integrated totals, height-weighted means, constants, peaks,
 partition of the window, round trip, filterMesh specification, resampling totals / means).
@@ -1264,6 +1268,7 @@ def run_filter(ctx):
             ctx.case(("common-mesh", delta, m), nontrivial=True)
     # the public path: generateCommonMesh / _decuspAxialMesh on whole cores; the pipeline is also run through the model
     dreq, dchk = [], []
+    areq, achk = [], []
 
     def common_mesh_case(rr, m, case, witness=False):
         from armi.reactor.flags import Flags as F
@@ -1274,6 +1279,10 @@ def run_filter(ctx):
             with common.quiet():
                 g._computeAverageAxialMesh()
                 base = [float(x) for x in g._commonMesh]
+                refn = len(rr.core.findAllAxialMeshPoints([rr.core.refAssem])[1:])
+                per_a = [[float(z) for z in rr.core.findAllAxialMeshPoints([a_])[1:]] for a_ in rr.core]
+                areq.append(f"avgmesh {refn} [" + ",".join(ratlist(x) for x in per_a) + "]")
+                achk.append((dict(case, what="_computeAverageAxialMesh"), base))
                 fuel, ctrl = rr.core.getAssemblies(F.FUEL), rr.core.getAssemblies(F.CONTROL)
                 sets = [sorted({float(a_.getFirstBlock(F.FUEL).p.zbottom) for a_ in fuel}),
                         sorted({float(a_.getBlocks(F.FUEL)[-1].p.ztop) for a_ in fuel}),
@@ -1346,6 +1355,23 @@ def run_filter(ctx):
     dmodel = lean_run("Mesh", dreq)
     ctx.compare("Model/Mesh.lean decusp vs UniformMeshGenerator._decuspAxialMesh", [c for c, _ in dchk], dmodel, [x for _, x in dchk])
     ctx.evaluations += len(dreq)
+    compare_avgmesh(ctx, areq, achk)
+
+
+def compare_avgmesh(ctx, areq, achk):
+    """Model/Mesh.lean averageAxialMesh vs UniformMeshGenerator._computeAverageAxialMesh (numerically: the model
+    averages exact rationals)"""
+    amodel = lean_run("Mesh", areq)
+    for (case, impl), line, rq in zip(achk, amodel, areq):
+        okk = line not in ("reject", "bad-op")
+        if okk:
+            m = common.parse_list(line)
+            okk = len(m) == len(impl) and all(relclose(v, x, 1e-12) for x, v in zip(m, impl))
+        if not okk:
+            ctx.disagree("Model/Mesh.lean averageAxialMesh vs UniformMeshGenerator._computeAverageAxialMesh",
+                         dict(case, request=rq[:300]), line[:300], str(impl)[:300])
+    ctx.evaluations += len(areq)
+    ctx.count("average-mesh model requests", len(areq))
 
 
 def oracle_filter(ctx, case, out):
@@ -1579,6 +1605,344 @@ def run_avg1d(ctx):
 
 
 # --------------------------------------------------------------------------- entry points
+# --------------------------------------------------------------------------- the public path end to end
+_CONV = {}
+
+
+def conv_fixture(which):
+    """a reactor of its own for the converter stream (convert / applyStateToOriginal write on it)"""
+    import os
+    from armi.reactor.tests.test_reactors import loadTestReactor
+    from armi.tests import TEST_ROOT
+
+    if which not in _CONV:
+        with common.scratch_dir(), common.quiet():
+            _CONV[which] = loadTestReactor(os.path.join(TEST_ROOT, "detailedAxialExpansion") if which == "detailed" else TEST_ROOT)
+    return _CONV[which]
+
+
+def loc_kind(pd):
+    """the property's three categories, read from the parameter definition: volume-integrated / peak / any other"""
+    from armi.reactor import parameters
+
+    if pd.atLocation(parameters.ParamLocation.MAX):
+        return "peak"
+    if pd.atLocation(parameters.ParamLocation.VOLUME_INTEGRATED):
+        return "int"
+    return "avg"
+
+
+CONV_ARRAYS = ("mgFlux", "adjMgFlux", "lastMgFlux")
+
+
+def conv_superset(b0):
+    """the block parameters a mesh converter may map, from the public parameter categories: scalar float parameters of
+    the neutronics / gamma / multi-group / detailed-axial-expansion categories plus the initial heavy-metal inventory,
+    each with the property's kind read from its definition; and the 3-vector parameters"""
+    names = {}
+    pdefs = b0.p.paramDefs
+    for cat in ("neutronics", "gamma", "detailedAxialExpansion", "multi-group quantities", "pinQuantities"):
+        try:
+            found = pdefs.inCategory(cat).names
+        except Exception:  # noqa
+            continue
+        for nm in found:
+            names[nm] = None
+    for nm in ("massHmBOL", "molesHmBOL"):
+        names[nm] = None
+    out = []
+    for nm in sorted(names):
+        pd = pdefs[nm]
+        if nm in CONV_ARRAYS or nm.startswith("points") or "corner" in nm.lower() or "Pin" in nm:
+            continue
+        if isinstance(pd.default, float):
+            out.append((nm, loc_kind(pd)))
+    return out, [nm for nm in CONV_ARRAYS if nm in names]
+
+
+def conv_mapped(conv, superset, arrays):
+    """those of the candidate parameters that the converter lists for the direction it was last set up for"""
+    listed = set(conv.paramMapper.blockParamNames)
+    return [(nm, k) for nm, k in superset if nm in listed], [nm for nm in arrays if nm in listed]
+
+
+def conv_assign(ctx, assems, names, arrays):
+    for a in assems:
+        for b in a:
+            for nm, _k in names:
+                b.p[nm] = ctx.rng.randint(0, 4096) / 16.0
+            for nm in arrays:
+                b.p[nm] = np.array([ctx.rng.randint(0, 1024) / 8.0 for _ in range(3)])
+
+
+def conv_snap(a, nucs, names):
+    out = []
+    for b in a:
+        d = {"zb": float(b.p.zbottom), "zt": float(b.p.ztop), "h": float(b.getHeight()),
+             "nd": {n: float(b.getNumberDensity(n)) for n in nucs}}
+        for nm in names:
+            v = b.p[nm]
+            d[nm] = None if v is None else ([float(x) for x in v] if nm in CONV_ARRAYS else float(v))
+        out.append(d)
+    return out
+
+
+SYM_KEY = "converter-central-assembly-integrated-scaled-by-symmetry"
+
+
+def conv_check(ctx, c2, b0, S, D, names, arrays, sym=1.0):
+    """the property's clauses for the parameters mapped from snapshot S (source of the mapping) onto D; sym: symmetry
+    factor of the assembly's position (3 for the central assembly of a 1/3 core) in the build-a-new-core direction"""
+    def int_fail(nm, p0, p1, key, clause):
+        if sym != 1.0:      # known finding: reported under its own key, a few times
+            ctx.count("integrated parameters of a central (symmetric) assembly scaled on conversion")
+            if ctx.hist["integrated parameters of a central (symmetric) assembly scaled on conversion"] <= 2:
+                ctx.fail(SYM_KEY, clause, {"assembly": c2.get("assembly"), "symmetry_factor": sym, "param": nm,
+                                           "scenario": c2.get("scenario")}, observed=p1, expected=p0)
+            return
+        ctx.fail(key, clause, dict(c2, param=nm), observed=p1, expected=p0)
+
+    for nm, k in names:
+        if any(x[nm] is None for x in D):
+            ctx.fail("remap-parameter-kind-preserved", "each mapped parameter receives a value of its own kind", dict(c2, param=nm))
+            continue
+        if k == "int":
+            p0, p1 = sum(x[nm] for x in S), sum(x[nm] for x in D)
+            if not fclose(p0, p1, 1e-9):
+                int_fail(nm, p0, p1, "remap-integrated-total", f"assembly total of a volume-integrated parameter ({nm}) is conserved")
+            continue
+        for ib, y in enumerate(D):
+            ws = [(overlap(x["zb"], x["zt"], y["zb"], y["zt"]), x) for x in S]
+            if k == "avg":
+                exp = sum(w * x[nm] for w, x in ws) / (y["zt"] - y["zb"])
+                scale = max([abs(x[nm]) for w, x in ws if w > 0] or [0.0])
+                if not (fclose(y[nm], exp, 1e-9) or abs(y[nm] - exp) <= 1e-9 * scale):
+                    ctx.fail("remap-average-is-weighted-mean", "averaged parameter = height-weighted mean of the "
+                             "overlapped source values", dict(c2, param=nm, block=ib), observed=y[nm], expected=exp)
+            else:
+                sure = [x[nm] for w, x in ws if w > 1e-6 * x["h"]]
+                maybe = [x[nm] for w, x in ws if w > 0 or abs(min(x["zt"], y["zt"]) - max(x["zb"], y["zb"])) < 1e-9]
+                if sure and not (max(sure) <= y[nm] <= max(maybe)):
+                    ctx.fail("remap-peak-is-max", "peak parameter = largest overlapped source value",
+                             dict(c2, param=nm, block=ib), observed=y[nm], expected=max(sure))
+    for nm in arrays:
+        if any(x[nm] is None or len(x[nm]) != 3 for x in D):
+            ctx.fail("remap-parameter-kind-preserved", "an array parameter receives its vector", dict(c2, param=nm))
+            continue
+        f0, f1 = np.sum([x[nm] for x in S], axis=0), np.sum([x[nm] for x in D], axis=0)
+        if loc_kind(b0.p.paramDefs[nm]) == "int" and not all(fclose(u, v, 1e-9) for u, v in zip(f0, f1)):
+            int_fail(nm, list(f0), list(f1), "remap-integrated-total-array",
+                     "assembly total of an array-valued integrated parameter is conserved")
+
+
+def run_converter(ctx):
+    """UniformMeshGeometryConverter.convert(r) and applyStateToOriginal() on a whole core whose assemblies have
+    different axial meshes (the detailedAxialExpansion core, further perturbed by uniform axial expansions of random
+    assemblies): the parameter selection of both directions (neutronics and gamma converters), generateCommonMesh (with /
+    without a minimum size), _buildAllUniformAssemblies / makeAssemWithUniformMesh, _mapStateFromReactorToOther both
+    directions, the non-uniform-assemblies path (only flagged assemblies are replaced and later restored). Clauses: the
+    property's, per assembly, with independent interval arithmetic, for EVERY scalar parameter (and the 3-vectors) the
+    converter's public ParamMapper lists for that direction - every candidate parameter of the mapped categories is given
+    a value beforehand; plus the model on sampled (assembly, parameter / nuclide) pairs."""
+    from armi.reactor.converters import uniformMesh
+    from armi.reactor.converters.axialExpansionChanger import AxialExpansionChanger
+    from armi.reactor.flags import Flags
+
+    req, chk = [], []
+    areq, achk = [], []
+    ncases = ctx.pick(6, 40)
+    for it in range(ncases):
+        which = "detailed" if (not ctx.thorough or it % 4) else "reference"
+        if it and it % 6 == 0:
+            _CONV.pop(which, None)      # a fresh reactor now and then (the perturbations accumulate)
+        o, r = conv_fixture(which)
+        variant = ctx.rng.choice(["neutronics", "neutronics", "neutronics-min", "gamma", "non-uniform-flags"])
+        minsize = ctx.rng.choice([3.0, 6.0, 10.0]) if variant == "neutronics-min" else None
+        case = {"scenario": "converter " + variant, "core": which, "min": minsize, "it": it}
+        # perturb: uniform growth of all solids of every block below the top of a few assemblies (meshes drift apart)
+        if which == "detailed":
+            try:
+                with common.quiet():
+                    for a in ctx.rng.sample(list(r.core), 3):
+                        chg = AxialExpansionChanger(detailedAxialExpansion=True)
+                        per = {id(b): 1.0 + ctx.rng.randint(-4, 4) / 512.0 for b in a}
+                        comps = [c for b in a[:-1] for c in b if c.containsSolidMaterial()]
+                        chg.performPrescribedAxialExpansion(a, comps, [per[id(c.parent)] for c in comps], setFuel=True)
+                    r.core.updateAxialMesh()
+            except Exception as e:  # noqa
+                raise common.Infra(f"cannot perturb the converter fixture: {e!r}")
+        flags = []
+        if variant == "non-uniform-flags":
+            flags = ctx.rng.choice([["primary control"], ["secondary control"], ["primary control", "secondary control"],
+                                    ["lead test fuel"], ["feed fuel", "primary control"]]) if which == "detailed" else ["control"]
+        cs = o.cs.modified(newSettings={"nonUniformAssemFlags": flags, "uniformMeshMinimumSize": minsize})
+        try:
+            if variant == "gamma":
+                conv = uniformMesh.GammaUniformMeshConverter(cs)
+            else:
+                conv = uniformMesh.NeutronicsUniformMeshConverter(cs, calcReactionRates=False)
+            conv.calcReactionRates = False
+        except Exception as e:  # noqa
+            raise common.Infra(f"cannot construct the converter: {e!r}")
+        b0 = r.core.getFirstBlock()
+        superset, sup_arrays = conv_superset(b0)
+        sup_all = [nm for nm, _ in superset] + sup_arrays
+        # ---- source state (direction "in")
+        src_assems = list(r.core)
+        flagged = [a for a in src_assems if flags and any(a.hasFlags(Flags.fromStringIgnoreErrors(f)) for f in flags)]
+        watch = flagged if flags else src_assems
+        if flags and not flagged:
+            continue
+        oname = {id(a): a.getName() for a in watch}      # (the non-uniform path renames the stored originals)
+        nucs_of = {oname[id(a)]: ctx.rng.sample(sorted(a.getNuclides()), min(3, len(a.getNuclides()))) for a in watch}
+        # every candidate parameter gets a value on the source; which of them the converter takes over is read from its
+        # public ParamMapper after convert()
+        conv_assign(ctx, watch, superset, sup_arrays)
+        r.core.p.keff = 1.0 + ctx.rng.randint(1, 255) / 1024.0
+        r.core.p.power = float(ctx.rng.randint(1, 1000) * 1000)
+        S_in = {oname[id(a)]: conv_snap(a, nucs_of[oname[id(a)]], sup_all) for a in watch}
+        core_before = {nm: float(r.core.p[nm]) for nm in ("keff", "power")}
+        refn = len(r.core.findAllAxialMeshPoints([r.core.refAssem])[1:])
+        per_a = [[float(z) for z in r.core.findAllAxialMeshPoints([a_])[1:]] for a_ in r.core]
+        try:
+            with common.quiet():
+                conv.convert(r)
+        except Exception as e:  # noqa
+            ctx.fail("converter-raises", "converting a core onto its common mesh succeeds", case, observed=repr(e)[:300])
+            _CONV.pop(which, None)
+            continue
+        cr = conv.convReactor
+        in_names, in_arrays = conv_mapped(conv, superset, sup_arrays)
+        in_all = sup_all
+        core_in = [nm for nm in ("keff", "power") if nm in conv.paramMapper.reactorParamNames]
+        core_vals = [core_before[nm] for nm in core_in]
+        ctx.count("converter: scalar block parameters mapped in", len(in_names))
+        mesh = [float(z) for z in cr.core.p.axialMesh]
+        case["common_mesh"] = [round(z, 6) for z in mesh]
+        if not flags and minsize is None:
+            # the common mesh of a core whose assemblies have drifted apart = the model's average of the same meshes
+            areq.append(f"avgmesh {refn} [" + ",".join(ratlist(x) for x in per_a) + "]")
+            achk.append((dict(case, what="common mesh of convert()"), mesh[1:]))
+            # ... and, by the property: every point lies between the smallest and largest corresponding source point
+            same = [x for x in per_a if len(x) == refn]
+            for j, z in enumerate(mesh[1:]):
+                col = [x[j] for x in same]
+                if same and not (min(col) - 1e-9 <= z <= max(col) + 1e-9):
+                    ctx.fail("common-mesh-point-within-source-points", "a point of the averaged common mesh lies between the "
+                             "corresponding points of the assemblies it averages", dict(case, index=j), observed=z,
+                             expected=[min(col), max(col)])
+        dest_of = {}
+        for a in watch:
+            nm_a = oname[id(a)]
+            try:
+                d = cr.core.getAssemblyByName(nm_a)
+            except KeyError:
+                d = None
+            if d is None or d is a:
+                ctx.fail("converter-assembly-present", "every assembly to convert has its re-meshed counterpart in the "
+                         "converted core", dict(case, assembly=a.getType()))
+                continue
+            dest_of[nm_a] = d
+            S, D = S_in[nm_a], conv_snap(d, nucs_of[nm_a], in_all)
+            c2 = dict(case, assembly=a.getType(), direction="in", source_mesh=[0.0] + [x["zt"] for x in S])
+            dm = [D[0]["zb"]] + [x["zt"] for x in D]
+            if len(dm) != len(mesh) or not all(abs(x - y) <= 1e-9 * max(1.0, abs(y)) for x, y in zip(dm, mesh)):
+                ctx.fail("converter-uniform-mesh", "every converted assembly has the common mesh", c2, observed=dm, expected=mesh)
+            if not fclose(D[-1]["zt"], S[-1]["zt"], 1e-9):
+                ctx.fail("remap-total-height", "the new assembly spans the same height", c2, observed=D[-1]["zt"], expected=S[-1]["zt"])
+                continue
+            if any(not x["h"] > 0 or not fclose(x["zt"] - x["zb"], x["h"], 1e-9) for x in D) or any(
+                    D[k]["zb"] != D[k - 1]["zt"] for k in range(1, len(D))):
+                ctx.fail("remap-contiguous", "destination blocks are contiguous and of positive height", c2, observed=dm)
+            for n in nucs_of[nm_a]:
+                a0, a1 = sum(x["nd"][n] * x["h"] for x in S), sum(x["nd"][n] * x["h"] for x in D)
+                if not fclose(a0, a1, 1e-9):
+                    ctx.fail("remap-atoms-conserved", f"sum_b N_b({n}) h_b is the same before and after re-meshing", c2, observed=a1, expected=a0)
+            sym = 1.0 if flags else float(a.getSymmetryFactor())
+            conv_check(ctx, c2, b0, S, D, in_names, in_arrays, sym)
+            if ctx.rng.random() < 0.25 and sym == 1.0:
+                zb, zt, hh = geom(S)
+                dzb, dzt, dh = geom(D)
+                n = nucs_of[nm_a][0]
+                req.append(f"remapnd {zb} {zt} {hh} {ratlist([x['nd'][n] for x in S])} {dzb} {dzt} {dh}")
+                chk.append((dict(c2, nuclide=n), [x["nd"][n] for x in D]))
+                if in_names:
+                    nm, k = ctx.rng.choice(in_names)
+                    req.append(f"remap {k} {zb} {zt} {hh} {optlist([x[nm] for x in S])} {dzb} {dzt} {dh}")
+                    chk.append((dict(c2, param=nm), [x[nm] for x in D]))
+        if not flags and [float(cr.core.p[nm]) for nm in core_in] != core_vals:
+            ctx.fail("converter-core-parameters-in", "the core-level parameters the converter lists go over to the converted core",
+                     dict(case, params=core_in), observed=[float(cr.core.p[nm]) for nm in core_in], expected=core_vals)
+        # ---- a "solution" on the converted core, then direction "out"
+        dests = [dest_of[oname[id(a)]] for a in watch if oname[id(a)] in dest_of]
+        conv_assign(ctx, dests, superset, sup_arrays)
+        kout = 1.0 + ctx.rng.randint(1, 255) / 1024.0
+        cr.core.p.keff = kout
+        allnames = sup_all
+        D_out = {d.getName(): conv_snap(d, nucs_of[d.getName()], allnames) for d in dests}
+        nd_before = {oname[id(a)]: conv_snap(a, nucs_of[oname[id(a)]], ()) for a in watch}
+        try:
+            with common.quiet():
+                conv.applyStateToOriginal()
+        except Exception as e:  # noqa
+            ctx.fail("converter-raises", "mapping the state of the converted core back succeeds", case, observed=repr(e)[:300])
+            _CONV.pop(which, None)
+            continue
+        names, arrays = conv_mapped(conv, superset, sup_arrays)      # (the mapper now lists the way back)
+        core_out = [nm for nm in ("keff",) if nm in conv.paramMapper.reactorParamNames]
+        if not names:
+            raise common.Infra("the converter maps no scalar block parameter back: the stream has nothing to observe")
+        for k in ("int", "avg", "peak"):
+            ctx.count(f"converter: parameters of kind {k} mapped back", sum(1 for _n, kk in names if kk == k))
+        if core_out and float(r.core.p.keff) != kout:
+            ctx.fail("converter-core-parameters-out", "the core-level result (keff) goes back to the original core", case,
+                     observed=float(r.core.p.keff), expected=kout)
+        for a in watch:
+            nm_a = oname[id(a)]
+            if nm_a not in D_out:
+                continue
+            try:
+                back = r.core.getAssemblyByName(nm_a)
+            except KeyError:
+                back = None
+            if back is not a:
+                ctx.fail("converter-original-assemblies-restored", "after mapping back the core holds its original assemblies",
+                         dict(case, assembly=a.getType()), observed=repr(back)[:80])
+                continue
+            D, B = D_out[nm_a], conv_snap(back, nucs_of[nm_a], allnames)
+            c2 = dict(case, assembly=a.getType(), direction="out", source_mesh=[0.0] + [x["zt"] for x in D],
+                      target_mesh=[0.0] + [x["zt"] for x in B])
+            for x, y in zip(nd_before[nm_a], B):
+                if x["nd"] != y["nd"] or x["zt"] != y["zt"]:
+                    ctx.fail("converter-out-leaves-composition", "mapping results back changes neither the mesh nor the "
+                             "composition of the original assembly", c2, observed=y["nd"], expected=x["nd"])
+                    break
+            conv_check(ctx, c2, b0, D, B, names, arrays)
+            if ctx.rng.random() < 0.3:
+                nm, k = ctx.rng.choice(names)
+                zb, zt, hh = geom(D)
+                dzb, dzt, dh = geom(B)
+                req.append(f"remap {k} {zb} {zt} {hh} {optlist([x[nm] for x in D])} {dzb} {dzt} {dh}")
+                chk.append((dict(c2, param=nm), [x[nm] for x in B]))
+        ctx.count("converter: " + variant)
+        ctx.case(("converter", which, variant, minsize, tuple(flags), tuple(case["common_mesh"])), nontrivial=True,
+                 sample={"case": {k: v for k, v in case.items()}, "mapped_in": [n for n, _ in in_names] + in_arrays,
+                         "mapped_back": [n for n, _ in names][:12] + arrays})
+    model = lean_run("Mesh", req)
+    for (case, impl), line, rq in zip(chk, model, req):
+        okk = line not in ("reject", "bad-op")
+        if okk:
+            m = common.parse_list(line)
+            okk = len(m) == len(impl) and all(x == "_" or v is None or relclose(v, x, 1e-9) or abs(float(Fraction(x)) - v) < 1e-12
+                                              for x, v in zip(m, impl))
+        if not okk:
+            ctx.disagree("Model/Mesh.lean vs convert / applyStateToOriginal (one assembly, one parameter or nuclide)",
+                         dict(case, request=rq[:400]), line[:400], str(impl)[:400])
+    ctx.evaluations += len(req)
+    ctx.count("converter-stream model requests", len(req))
+    compare_avgmesh(ctx, areq, achk)
+
+
 def run(ctx):
     run_resample(ctx)
     run_filter(ctx)
@@ -1590,6 +1954,7 @@ def run(ctx):
     run_block_mesh(ctx)
     run_repeated(ctx)
     run_near(ctx)
+    run_converter(ctx)
     ctx.rule = ("assembly stream: (fixture assembly type, source mesh, target mesh, profile mode) with target meshes "
                 "identical / finer / coarser / shifted / random on a 1/8 cm dyadic lattice, 'tiny' (points and cells 2^-10.."
                 "2^-22 cm beside source boundaries) and 'nearsame' (same point count, relative offsets 1e-6..1e-4), profiles "
@@ -1604,7 +1969,11 @@ def run(ctx):
                 "of _filterMesh (random and clustered candidates/anchors, corpus of hand-written cases, both preferences) "
                 "plus generateCommonMesh end to end (control tops beside the fuel top), resampleStepwise (xin, yin, xout; "
                 "both avg modes, list and array input), average1DWithinTolerance (rows, tolerance). Meshes with points "
-                "1e-7..3e-11 apart are judged by the implementation-side oracle only.")
+                "1e-7..3e-11 apart are judged by the implementation-side oracle only. Converter stream: whole-core "
+                "convert() + applyStateToOriginal() (neutronics / neutronics with minimum mesh size / gamma converter / "
+                "non-uniform-assembly flags) on the detailedAxialExpansion core perturbed by axial expansions of random "
+                "assemblies (thorough: also the reference core); per assembly and direction up to three scalar parameters of "
+                "each kind and the 3-vector parameters chosen among those the converter itself lists.")
 
 
 def search(ctx, disagreements, broken):
